@@ -175,6 +175,35 @@ def context(vals):
             return False, f"after an evaluation that ended in {kd} ({type(r).__name__}) the filter context is still installed"
         if any(t != tag for t in seen[n0:]):
             return False, f"host function saw context {seen[n0:]} during the evaluation with filter {tag}"
+    p1, bx = steps[0][0], steps[0][2]
+    n0 = len(seen)
+    with lib.C7NContext(filter=_Filter("F3")):
+        kd, r = evaluate_outcome(lambda: p1.evaluate(bx, _Filter("F1")))
+    if lib.C7N is not None:
+        lib.C7N = None
+        return False, "after an explicit `with C7NContext(...)` block around an evaluation the filter context is still installed"
+    if any(t != "F1" for t in seen[n0:]):
+        return False, f"inside an enclosing context the host function saw {seen[n0:]}, the evaluation's filter is F1"
+    p5, f4 = make("probe(10 / x)"), _Filter("F4")
+    with lib.C7NContext(filter=_Filter("F3")):
+        evaluate_outcome(lambda: p5.evaluate(bx, f4))
+    if lib.C7N is not None:
+        lib.C7N = None
+        return False, "after an explicit `with C7NContext(...)` block around a program's first evaluation the filter context is still installed"
+    kd, r = evaluate_outcome(lambda: p5.evaluate(bx, f4))
+    if lib.C7N is not None:
+        stale = getattr(getattr(lib.C7N, "filter", None), "tag", lib.C7N)
+        lib.C7N = None
+        return False, f"a program first evaluated inside an enclosing context, evaluated again outside it (outcome {kd}): the filter context is still installed afterwards ({stale!r})"
+    for tag in ("F1", "F2", "F1"):
+        n0 = len(seen)
+        kd, r = evaluate_outcome(lambda: p1.evaluate(bx, _Filter(tag)))
+        if lib.C7N is not None:
+            stale = getattr(getattr(lib.C7N, "filter", None), "tag", lib.C7N)
+            lib.C7N = None
+            return False, f"after re-evaluating (outcome {kd}) a program that was once evaluated inside an enclosing context, the filter context is still installed ({stale!r})"
+        if any(t != tag for t in seen[n0:]):
+            return False, f"host function saw context {seen[n0:]} during the evaluation with filter {tag}"
     return True, "ok"
 
 
